@@ -30,7 +30,8 @@ INFO = dict(
               "every array-level feature; the size-changing branch in the code's own binary64 arithmetic, with the "
               "rounding function modelled over Q and its standard error model proved; gradient, no_op, IGO, ES, "
               "gaussian_filter and the DAISY size law inside the model; the normalisers over Q; invariants of arbitrary "
-              "feature sequences by induction; buffer-level frame theorems for 'never modifies its input') + the SOURCE "
+              "feature sequences by induction; buffer-level frame theorems over a hand-written allocation model, the clause 'never "
+              "modifies its input' itself being decided by the oracle) + the SOURCE "
               "TEXT of the feature code translated into Lean on every run (harness/py2lean2.py + harness/py2lean2f.py + "
               "harness/trans_c18.py -> Generated/C18Src.lean: the three decorators ndfeature / imgfeature / winitfeature, "
               "rebuild_feature_image, rebuild_feature_image_with_centres, sample_mask_for_centres, lm_centres_correction, "
@@ -48,20 +49,25 @@ INFO = dict(
                "the same exception), independently of mask and landmarks, keeps the masked-or-not kind, returns mask and "
                "landmarks unchanged when the shape is kept and landmarks scaled by the shape ratio / mask resized when "
                "it is not - the resize modelled operation by operation in binary64 (rne over Q, |rne x - x| <= 2^-53 |x| "
-               "proved): np.round(n/o*o) = n for all extents, the sampled index is the nearest source pixel for all "
+               "proved): np.round(n/o*o) = n for all extents 0 < o, n < 2^40, the sampled index is the nearest source pixel for all "
                "extents 2 <= o, n < 2^20 (one of the two nearest at exact half-way positions), landmarks within 3*2^-53 "
                "relative of the exact rescaling, the ceil variant refuted by witness; any sequence of decorated "
                "features (feature of feature) gives the values of the same sequence on the raw array, keeps kind and "
                "landmark groups, and writes no buffer that existed before it. Kernels inside the model: gradient "
                "(np.gradient stencil, channel order n_dims*C, affine ramps -> constant slope, linearity, uint8/too-small "
                "refusals), no_op (a copy), IGO/ES as functions of the gradient under the square-root contract (layout, "
-               "channel counts, cos^2+sin^2 = 1 at every pixel incl. double angles, ES in the unit disc, NaN exactly at "
-               "0/0), gaussian_filter under the kernel contract (constants kept everywhere, affine ramps kept away from "
+               "channel counts; cos^2+sin^2 = 1 incl. double angles, ES in the unit disc, NaN exactly at 0/0 - each AT A "
+               "PIXEL WHERE the magnitude handed to the model is a non-negative square root of g_y^2+g_x^2: over Q that "
+               "holds only where the sum is a rational square, so the same facts are proved over every linearly ordered "
+               "field with Real.sqrt as a witness for every pixel, Props/C18Real.lean), gaussian_filter under the kernel contract (constants kept everywhere, affine ramps kept away from "
                "the borders), DAISY grid shape ceil((H-2r)/step). normalize = centred / statistic per channel or "
                "overall, zero mean in every branch, unit variance resp. unit norm and idempotence (also up to the sign "
-               "of the scale) under the contract sigma*sigma = var resp. nu*nu = sum of squares, a zero statistic "
+               "of the scale) under the contract sigma*sigma = var resp. nu*nu = sum of squares (over Q satisfiable only "
+               "for data whose variance / sum of squares is a rational square: see partial), a zero statistic "
                "(single-sample groups included) refused exactly when asked and skipped otherwise without ever dividing "
-               "by zero; masked images: masked pixels normalised, zeros outside, annotations kept; the option plumbing of "
+               "by zero (in exact arithmetic: on floats the zero test is rounding-dependent, recorded finding); `normalize` "
+               "given a MaskedImage with a partial mask: masked pixels normalised among themselves, zeros outside, "
+               "annotations kept - the two calling conventions then do NOT agree (recorded finding, known_findings.txt); the option plumbing of "
                "daisy (which rings / radius / sigmas / ring_radii reach _daisy, what is refused first) and sum_channels. "
                "Tied to /repo by (0) the source translation: the text of menpo/feature/base.py, features.py, "
                "visualize.py and predefined.py of the working tree is rewritten into Lean on every run and 31 equalities "
@@ -86,6 +92,16 @@ INFO = dict(
                "translator harness/py2lean2.py + py2lean2f.py and the C18 vocabulary harness/trans_c18.py + "
                "Core/C18Src.lean (one Lean operation per numpy / menpo expression, with that expression's own meaning: "
                "broadcasting, partial attribute access, slices with a step, slice assignment; `verbose` fixed to False). "
+               "Vocabulary words with a hand-written meaning, tied by the correspondence only: asVector / fromVector "
+               "(Image / MaskedImage.as_vector, from_vector), resizeMask (Image.resize -> rescale -> warp_to_shape, "
+               "menpo/image/base.py), the shape check of the MaskedImage constructor (Err.maskShape), sampleMask; both "
+               "ValueErrors of normalize (unknown mode, zero scale) are one enum value; the driver's table look-ups of a "
+               "given statistic / magnitude default to 1 / 0 on a missed key.  The translation is VALUE-LEVEL: it does not "
+               "see copy= flags, in-place vs rebinding or object identity (only no_op's `.copy()` is a typed word: "
+               "dropping it makes the translated file ill-typed); which numpy expression allocates and which writes is "
+               "ASSUMED by the hand-written Store model (normalizeS, noOpS, ndfeatureS, Frame) - the 'never modifies its "
+               "input' clause is decided on the real code by the oracle's digests of pixels / mask / landmarks of "
+               "read-only inputs and by the measured effect table, not by the translated obligations.  "
                "Contract parameters (not verified, checked numerically each run): np.std / np.linalg.norm / np.abs of a "
                "complex number return the non-negative square root of the exact variance / sum of squares / g_y^2+g_x^2; "
                "np.angle, sin, cos satisfy sin = g_x/|g|, cos = g_y/|g|, angle(0) = 0 and the double-angle identities; "
@@ -113,11 +129,28 @@ INFO = dict(
              "stated for 2-D images, rectangular with at least one channel; their N-D variants on flat data (3-D "
              "gradient and gaussian_filter) are tied to them by a per-case equality check in the driver and to the "
              "code by the correspondence",
+             "the unit-variance / unit-norm / idempotence theorems assume sigma*sigma = var resp. nu*nu = sum of squares "
+             "for a statistic over Q, and gauss_const / gauss_ramp_interior assume a kernel summing to 1 exactly: over Q "
+             "these hypotheses hold only for special data (variance a rational square; the examples use such rows) and "
+             "for no float run (the harness checks the contracts to 1e-9 / 1e-12); they are true statements about the "
+             "algebra of the code, not generalised to an ordered field (only the IGO / ES pixel facts were, "
+             "Props/C18Real.lean); the clauses themselves are decided on the real code by the oracle",
+             "the zero-scale clause is proved for exact arithmetic; on floats the code's `scale_factor == 0` is decided on "
+             "rounded numbers: constant images of a value that is not exactly representable (k/255, 0.1) are generated "
+             "on every run and normalize_norm's failure to refuse / skip them is a recorded finding (known_findings.txt)",
+             "`normalize` given a MaskedImage with a partial mask does not agree with `normalize` on the raw array "
+             "(statistics over the masked pixels only): judged by the oracle as the text states it, recorded as a known "
+             "finding; normalizeImg_agrees_plain covers unmasked and all-true masks only",
+             "group class / labels / edges of landmark groups surviving the rebuild are checked by the oracle only (the "
+             "model carries key and points); the 'never modifies its input' theorems are about the hand-written Store "
+             "model (which expression allocates is assumed, not translated)",
              "integer pixel dtypes: every feature is run on uint8 / int16 / int32 / int64 images and arrays under the "
              "oracle (both conventions agree, input untouched, annotations kept); gradient / igo / es / daisy refuse "
              "uint8 (TypeError, in both conventions: inside the model), igo / es / gaussian_filter write their result "
              "into an array of the input's integer dtype (truncated values): outside the exact model, oracle only"],
     assumptions=["numpy float64 arithmetic on small dyadic inputs is accurate to 1e-12 relative",
+                 "which numpy expression allocates a new buffer and which writes in place is as the Store model says "
+                 "(not visible to the value-level translation; watched by the digest oracle on read-only inputs)",
                  "features are deterministic functions of their input array",
                  "numpy's float64 division / multiplication / subtraction / addition round to nearest even (IEEE 754), "
                  "as the model's rne does; validated by the extent sweep on every run"],
@@ -131,7 +164,7 @@ THEOREMS = [
     "MenpoModel.C18.winitfeature_agrees", "MenpoModel.C18.ndfeature_total",
     "MenpoModel.C18.feature_keeps_kind", "MenpoModel.C18.feature_same_size_keeps_annotations",
     "MenpoModel.C18.feature_new_size_rescales", "MenpoModel.C18.srcAxis_nearest", "MenpoModel.C18.srcAxis_same",
-    "MenpoModel.C18.scaleLms_keys", "MenpoModel.C18.scaleLms_points", "MenpoModel.C18.scalePt_2d",
+    "MenpoModel.C18.scaleLms_keys", "MenpoModel.C18.scaleLms_points",
     "MenpoModel.C18.winit_annotations", "MenpoModel.C18.winit_landmark_on_grid",
     "MenpoModel.C18.normalize_per_channel_spec", "MenpoModel.C18.normalize_all_spec",
     "MenpoModel.C18.normalize_zero_mean_per_channel", "MenpoModel.C18.normalize_zero_mean_all",
@@ -178,8 +211,11 @@ THEOREMS = [
     "MenpoModel.C18.daisyLayout_length", "MenpoModel.C18.daisyLayout_get", "MenpoModel.C18.daisyLayout_last",
     "MenpoModel.C18.daisyPlumb_defaults", "MenpoModel.C18.daisyPlumb_ring_radii", "MenpoModel.C18.daisyPlumb_sigmas",
     "MenpoModel.C18.daisyPlumb_both", "MenpoModel.C18.daisyPlumb_refusals", "MenpoModel.C18.daisyPlumb_ok_complete",
-    "MenpoModel.C18.sumAxis0_cons_cons", "MenpoModel.C18.sumChannels2_one_channel", "MenpoModel.C18.sumChannels2_all",
-    "MenpoModel.C18.elem_addChan",
+    "MenpoModel.C18.sumChannels2_one_channel", "MenpoModel.C18.sumChannels2_all",
+    # Part I: the IGO / ES pixel facts over any linearly ordered field, the reals as witness (Props/C18Real.lean)
+    "MenpoModel.C18.unitDirK_unit", "MenpoModel.C18.unitDirK_double_unit", "MenpoModel.C18.esPixK_bounded",
+    "MenpoModel.C18.esPixK_nan_iff", "MenpoModel.C18.unitDir_eq_unitDirK", "MenpoModel.C18.esPix_eq_esPixK",
+    "MenpoModel.C18.realMag_spec", "MenpoModel.C18.igo_unit_real",
 ]
 
 # the translated source = the Core model (GenProps/C18Src.lean; `Generated/C18Src.lean` is rewritten by every run)
@@ -690,6 +726,8 @@ def gen_normaliser_spec(rng, zero=None):
         flavour, mode = "constant-channel", "per_channel"
     elif rng.random() < 0.2:
         flavour = "tiny"
+    elif rng.random() < 0.12:
+        flavour = "nondyadic-constant"
     params = {"mode": mode, "error_on_divide_by_zero": rng.random() < 0.5}
     kind = rng.choice(["Image", "Image", "MaskedImage"])
     if name == "normalize":
@@ -709,7 +747,19 @@ def gen_normaliser_spec(rng, zero=None):
         if sum(map(sum, mask)) < 1:
             mask = [[True] * w for _ in range(h)]
     dtype = rng.choice(["float64", "float64", "float32", "float64", "int64", "int32", "uint8", "int16"])
-    px = gen_pixels(rng, c, h, w, flavour)
+    if flavour == "nondyadic-constant":
+        # ordinary grey levels: a constant channel whose value is NOT exactly representable (k/255, 0.1): mean and
+        # centring round, so "constant => statistic == 0" is no longer exact in floating point
+        name = rng.choice(["normalize_std", "normalize_norm", "normalize_norm", "normalize_var"])
+        dtype, kind, mask = "float64", "Image", None
+        params = {"mode": mode, "error_on_divide_by_zero": rng.random() < 0.5}
+        h, w = rng.randint(2, 8), rng.randint(2, 8)
+        vals = [rng.choice([rng.randint(1, 254) / 255.0, 0.1, 0.3, 1.0 / 3.0]) for _ in range(c)]
+        if mode == "all":
+            vals = [vals[0]] * c
+        px = [[[v] * w for _ in range(h)] for v in vals]
+    else:
+        px = gen_pixels(rng, c, h, w, flavour)
     if not dtype.startswith("float"):
         # integer pixels (the normalisers promote to float64); uint8 needs non-negative values
         px = integer_pixels(px, dtype)
@@ -718,6 +768,8 @@ def gen_normaliser_spec(rng, zero=None):
     spec.update(gen_options(rng))
     if spec["history"] == "called_before":
         spec["history"] = None
+    if flavour == "nondyadic-constant":
+        spec["flavour"] = flavour
     return spec
 
 
@@ -843,7 +895,7 @@ def check_annotations(run, spec, img, out, site, rp, model=True, mask_content=Tr
     ctx = run.ctx
     old_shape, new_shape = tuple(img.shape), tuple(out.shape)
     masked = spec["kind"] == "MaskedImage"
-    ok_kind = (type(out) is MaskedImage) if masked else (type(out) is Image)
+    ok_kind = isinstance(out, MaskedImage) if masked else (isinstance(out, Image) and not isinstance(out, MaskedImage))
     ctx.check(ok_kind, site + ".kind", "kind-changed",
               "feature of a %s returned a %s" % (spec["kind"], type(out).__name__), rp)
     if not ok_kind:
@@ -851,9 +903,11 @@ def check_annotations(run, spec, img, out, site, rp, model=True, mask_content=Tr
     # landmarks
     want_keys = [g["key"] for g in spec["lms"]]
     got_keys = list(out.landmarks.keys()) if out.has_landmarks else []
-    if not ctx.check(got_keys == want_keys, site + ".landmarks", "groups-lost",
+    if not ctx.check(sorted(got_keys) == sorted(want_keys), site + ".landmarks", "groups-lost",
                      "landmark groups %r became %r" % (want_keys, got_keys), rp):
         return
+    if got_keys != want_keys:       # the ORDER of the groups is not named by the property: an observation, not a failure
+        ctx.mismatch("landmark-order", "landmark groups %r came back in the order %r" % (want_keys, got_keys), rp)
     sf = np.array(new_shape, dtype=float) / np.array(old_shape, dtype=float)
     for g in spec["lms"]:
         src = img.landmarks[g["key"]]
@@ -1260,8 +1314,14 @@ def wrapper_case(run, spec, model=True):
                   "feature(image).pixels differs from feature(image.pixels) (max abs diff %s)" % (
                       float(np.nanmax(np.abs(np.asarray(out.pixels, float) - np.asarray(out_arr, float))))
                       if out.pixels.shape == out_arr.shape else "shape %r vs %r" % (out.pixels.shape, out_arr.shape)), rp)
-        ctx.check(out.pixels.dtype == out_arr.dtype, site + ".agree", "dtype-differs",
-                  "dtype %s vs %s" % (out.pixels.dtype, out_arr.dtype), rp)
+        if out.pixels.dtype != out_arr.dtype:      # the text says "the same values", not the same dtype: an observation
+            ctx.mismatch("dtype", "dtype %s (image call) vs %s (array call)" % (out.pixels.dtype, out_arr.dtype), rp)
+    else:
+        # `normalize` given a MaskedImage with a partial mask: the text's clause is judged as it stands (same values as
+        # on the raw array of the same data); the code normalises over the masked pixels only: a recorded finding
+        ctx.check(arr_close(out.pixels, out_arr, agree_tol(spec)), site + ".agree", "masked-image-normalised-over-mask-only",
+                  "normalize(MaskedImage with a partial mask).pixels differs from normalize(image.pixels): the "
+                  "statistics are taken over the masked pixels only", rp)
     ctx.count("size:" + ("changed" if tuple(out.shape) != tuple(img.shape) else "kept"))
     exact_in = spec["dtype"].startswith("float") or name in ("gradient", "no_op")   # integer pixels: igo / es /
     # gaussian_filter write their result into an array of the input's integer dtype (truncated): oracle only
@@ -1311,7 +1371,7 @@ def check_window(run, spec, img, out, site, rp, model=True):
     rows = list(range(p["r0"], img.shape[0], p["sv"]))
     cols = list(range(p["c0"], img.shape[1], p["sh"]))
     masked = spec["kind"] == "MaskedImage"
-    ok_kind = (type(out) is MaskedImage) if masked else (type(out) is Image)
+    ok_kind = isinstance(out, MaskedImage) if masked else (isinstance(out, Image) and not isinstance(out, MaskedImage))
     if not ctx.check(ok_kind, site + ".kind", "kind-changed", "window feature of a %s returned a %s" % (
             spec["kind"], type(out).__name__), rp):
         return
@@ -1321,7 +1381,7 @@ def check_window(run, spec, img, out, site, rp, model=True):
     axes = [k for k, n in enumerate((len(rows), len(cols))) if n > 1]   # axes on which the grid defines a scale
     want_keys = [g["key"] for g in spec["lms"]]
     got_keys = list(out.landmarks.keys()) if out.has_landmarks else []
-    if not ctx.check(got_keys == want_keys, site + ".landmarks", "groups-lost", "%r -> %r" % (want_keys, got_keys), rp):
+    if not ctx.check(sorted(got_keys) == sorted(want_keys), site + ".landmarks", "groups-lost", "%r -> %r" % (want_keys, got_keys), rp):
         return
     if not degenerate:
         for g in spec["lms"]:
@@ -1373,9 +1433,42 @@ def statkind_is_given(name, params):
     return not (name == "normalize_var" or (name == "normalize" and params.get("scale") is None))
 
 
+def nondyadic_constant_case(run, spec):
+    """a constant channel of a value that is not exactly representable: every scale statistic is zero (the data is
+    constant), so the text asks for a refusal resp. a skipped, finite, zero-mean result; the code decides with
+    `scale_factor == 0` on ROUNDED numbers.  Oracle only (the exact model has no rounding)."""
+    import numpy as np
+    ctx = run.ctx
+    name, params = spec["feature"], spec["params"]
+    mode, err = params["mode"], params["error_on_divide_by_zero"]
+    site = "C18/%s.zero_scale/rounding" % name
+    rp = {"spec": spec, "call": "harness.c18.apply_feature(%r, %r, harness.c18.build_image(spec))" % (name, params)}
+    img = build_image(spec)
+    before = digest(img)
+    ctx.case((name, json.dumps(spec, sort_keys=True)), nontrivial=True,
+             sample={"feature": name, "params": params, "kind": spec["kind"], "dtype": spec["dtype"],
+                     "flavour": "nondyadic-constant"})
+    ctx.count("feature:" + name)
+    ctx.count("normaliser:nondyadic-constant/%s/%s" % (mode, "refuse" if err else "skip"))
+    kind, out = call_outcome(lambda: apply_feature(name, params, img))
+    ctx.check(digest(img) == before, "C18/%s.input" % name, "image-modified", "the input image was modified by the call", rp)
+    if err:
+        ok = kind == "ValueError"
+        what = "a constant image (%r) has zero scale, error_on_divide_by_zero=True: expected a refusal, got %s" % (
+            spec["pixels"][0][0][0], "a result" if kind == "ok" else kind)
+    else:
+        ok = kind == "ok" and bool(np.all(np.isfinite(out.pixels))) and bool(np.all(np.abs(out.pixels) <= 1e-9))
+        what = "a constant image (%r) has zero scale, skipping requested: expected the centred (zero) data, got %s" % (
+            spec["pixels"][0][0][0], kind if kind != "ok" else "values up to %r" % float(np.abs(out.pixels).max()))
+    ctx.count("nondyadic-constant:%s" % ("as-the-text-asks" if ok else "zero-scale-missed"))
+    ctx.check(ok, site, "float-statistic-not-exactly-zero", what, rp)
+
+
 def normaliser_case(run, spec, model=True):
     """normalize / normalize_std / normalize_norm / normalize_var: the numeric clauses and the zero-scale branches"""
     import numpy as np
+    if spec.get("flavour") == "nondyadic-constant":
+        return nondyadic_constant_case(run, spec)
     ctx = run.ctx
     name, params = spec["feature"], spec["params"]
     mode, err = params["mode"], params["error_on_divide_by_zero"]
@@ -1454,10 +1547,17 @@ def normaliser_case(run, spec, model=True):
             big = max(1.0, float(np.abs(want).max()))
             ctx.check(abs(float(gdata[gi].mean())) <= tol * (1 + big), site + ".zero_mean/" + mode, "mean-not-zero",
                       "mean of the normalised %s is %r" % ("image" if mode == "all" else "channel %d" % gi, float(gdata[gi].mean())), rp)
-            ctx.check(bool(np.all(np.abs(gdata[gi] - want) <= tol * (1 + big))), site + ".scale/" + mode, "not-centred-over-statistic",
-                      "%s is not (data - mean) / statistic%s: got %r want %r" % (
-                          "image" if mode == "all" else "channel %d" % gi, " (skipped: zero scale)" if zero[gi] else "",
-                          gdata[gi][:6].tolist(), want[:6].tolist()), rp)
+            scaled_ok = bool(np.all(np.abs(gdata[gi] - want) <= tol * (1 + big)))
+            if zero[gi]:
+                # a skipped group: the text asks for "skipped rather than non-finite" (judged by the finiteness check
+                # above); THAT it equals the centred data exactly is what the code does: an observation
+                if not scaled_ok:
+                    ctx.mismatch("skipped-group", "skipped (zero scale) %s is not the centred data: got %r want %r" % (
+                        "image" if mode == "all" else "channel %d" % gi, gdata[gi][:6].tolist(), want[:6].tolist()), rp)
+            else:
+                ctx.check(scaled_ok, site + ".scale/" + mode, "not-centred-over-statistic",
+                          "%s is not (data - mean) / statistic: got %r want %r" % (
+                              "image" if mode == "all" else "channel %d" % gi, gdata[gi][:6].tolist(), want[:6].tolist()), rp)
             if not zero[gi] and name == "normalize_std":
                 ctx.check(close(float(gdata[gi].std()), 1.0, 1.0, tol), site + ".unit/" + mode, "std-not-one",
                           "standard deviation after normalize_std is %r" % float(gdata[gi].std()), rp)
@@ -1476,12 +1576,21 @@ def normaliser_case(run, spec, model=True):
             ctx.check(ka == "ok" and arr_close(out_a, out.pixels, agree_tol(spec)), site + ".agree", "values-differ",
                       "feature(image).pixels differs from feature(image.pixels)%s" % ("" if ka == "ok" else " (array call raised %s)" % ka), rp)
         else:
-            ctx.check(bool(np.all(outside == 0)), site + ".masked", "outside-mask-not-zero",
-                      "pixels outside the mask are not zero after normalize on a MaskedImage", rp)
+            # the text's clause as it stands: same values as on the raw array of the same data (recorded finding: the
+            # code takes the statistics over the masked pixels only)
+            ctx.check(ka == "ok" and arr_close(out_a, out.pixels, agree_tol(spec)), site + ".agree",
+                      "masked-image-normalised-over-mask-only",
+                      "normalize(MaskedImage with a partial mask).pixels differs from normalize(image.pixels): the "
+                      "statistics are taken over the masked pixels only", rp)
+            # what the code does instead (zeros outside the mask, the masked pixels normalised among themselves) is not
+            # stated by the property: observations for the correspondence, not failures
+            if not bool(np.all(outside == 0)):
+                ctx.mismatch("normalize-masked", "pixels outside the mask are not zero after normalize on a MaskedImage", rp)
             marr = np.array([[float(v) for v in r] for r in rows], dtype=spec["dtype"]).reshape(c, 1, -1)
             km, out_m = call_outcome(lambda: apply_feature(name, params, marr))
-            ctx.check(km == "ok" and arr_close(np.asarray(out_m).reshape(c, -1), data, 1e-12), site + ".agree", "values-differ-on-masked-data",
-                      "normalize(masked image) on its masked pixels differs from normalize(array of the masked pixels)", rp)
+            if not (km == "ok" and arr_close(np.asarray(out_m).reshape(c, -1), data, 1e-12)):
+                ctx.mismatch("normalize-masked", "normalize(masked image) on its masked pixels differs from "
+                                                 "normalize(array of the masked pixels)", rp)
         # annotations (size is kept)
         spec_for_ann = spec
         check_annotations(run, spec_for_ann, img, out, site, rp, model=False)
